@@ -112,8 +112,9 @@ PROPS = {
     },
     'C02': {
         'rules': ['R-ESC', 'R-VOCAB', 'R-NONE', 'R-GUARD', 'DECOR', 'R-EXPNUM', 'R-LEVELS', 'R-TABS', 'R-ORDERED',
-                  'R-OPTKEY', 'R-FRAME', 'R-STATE'],
-        'filter': {'R-GUARD': rule('R-GUARD/BRACKETS'),
+                  'R-OPTKEY', 'R-FRAME', 'R-STATE', 'R-DISCONT'],
+        'filter': {'R-DISCONT': site('treeanalysis.gap_degree'),
+                   'R-GUARD': rule('R-GUARD/BRACKETS'),
                    'R-FRAME': both(rule('R-FRAME/PURE'), site('treeanalysis.gap_degree', 'trees.')),
                    'R-STATE': both(rule('R-STATE/G6'), site('treeoutput.')),
                    'R-ORDERED': either(rule('R-ORDERED/DEF'), site('treeoutput.')),
@@ -132,7 +133,7 @@ PROPS = {
                    'R-OPTSIDE': site('transform.run'),
                    'R-OPENMODE': site('transform.'),
                    'R-SIBLING': rule('R-SIBLING/GFSPLIT', 'R-SIBLING/PARENS'),
-                   'R-AUTOMATON': rule('R-AUTOMATON/A4', 'R-AUTOMATON/A3', 'R-AUTOMATON/FIELDS'),
+                   'R-AUTOMATON': rule('R-AUTOMATON/A4', 'R-AUTOMATON/A3', 'R-AUTOMATON/FIELDS', 'R-AUTOMATON/LEXER'),
                    'R-OPTKEY': rule('R-OPTKEY/K3')},
         'explanation': 'Decides, for `treetools transform`: every registry member exists with the arity its dispatch '
                        'site uses (4 readers x 5 writers total), both output branches frame every file with '
@@ -143,8 +144,9 @@ PROPS = {
                        'losslessness of a round trip.',
     },
     'C04': {
-        'rules': ['R-LINK', 'R-KEEP', 'R-ROOT', 'R-FRAME', 'R-STALE', 'R-ORDERED', 'R-FLAGS', 'R-HEADS'],
-        'filter': {'R-LINK': site('transform.', 'trees.'),
+        'rules': ['R-LINK', 'R-KEEP', 'R-ROOT', 'R-FRAME', 'R-STALE', 'R-ORDERED', 'R-FLAGS', 'R-HEADS', 'R-DISCONT'],
+        'filter': {'R-DISCONT': site('transform.boyd_split', 'trees.terminal_blocks'),
+                   'R-LINK': site('transform.', 'trees.'),
                    'R-HEADS': rule('R-HEADS/MARK', 'R-HEADS/RANGE'),
                    'R-ORDERED': both(rule('R-ORDERED/RAW'), site('transform.', 'trees.'))},
         'explanation': 'Decides, for every structural transformation: each attach is paired with the parent-pointer '
